@@ -294,13 +294,16 @@ class Categorize(Factory, Container):
                     pass
                 elif xval is None or np.isnan(xval):
                     xval = "NaN"
-                if xval not in self.bins:
-                    self.bins[xval] = self.value.zero()
 
                 # passing on the full array seems faster for one- AND multi-dim histograms
                 np.not_equal(inverse, i, selection)
                 subweights[:] = weights
                 subweights[selection] = 0.0
+                if xval not in self.bins:
+                    if not np.any(subweights > 0.0):
+                        # like fill(): a category that receives no positive weight does not get a bin
+                        continue
+                    self.bins[xval] = self.value.zero()
                 self.bins[xval]._numpy(data, subweights, shape)
 
         self.entries += float(newentries)
